@@ -64,7 +64,8 @@ def macro_alphabets(mac, pf, pid):
         def hook2(S, fn, bb, t, args, path, c=c):
             p = t["callee"].get("path", "")
             if p == "parser::Parser::peek":
-                k = sum(1 for e in path.events if e[0] == "call" and "parser::Parser::peek" in e[1])
+                # the token stream: one symbolic token, then the end (peek does not consume; eat_token does)
+                k = sum(1 for e in path.events if e[0] == "call" and "parser::Parser::eat_token" in e[1])
                 return ("value", Adt(OPT, 1, [UNK]) if k == 0 else Adt(OPT, 0, []))
             if p == "proc_macro2::Punct::as_char":
                 return ("value", c)
@@ -77,6 +78,97 @@ def macro_alphabets(mac, pf, pid):
             if pth.calls("proc_macro2::Punct::as_char") and pth.calls("std::string::String::push"):
                 subs.add(c)
     return init, subs
+
+
+def spacing(ctx, mac, pf, pid, init, subs):
+    """Rust reports for each punctuation character whether the next one follows immediately (Joint) or not
+    (Alone).  A symbol of the text parser ends where white space begins, so the macro must end a punctuation
+    symbol at a character that stands Alone and continue it at one that is Joint."""
+    r = ctx.rule("R-MACRO-SPACING", "a punctuation character with Spacing::Alone ends the macro's symbol, one with "
+                                    "Spacing::Joint continues it (start of a symbol and inside one)")
+    sp = mac.ext_adts.get("proc_macro2::Spacing")
+    if not sp:
+        r.anchor_missing("proc_macro2::Spacing (not used by lexpr_macros any more)")
+        return
+    OPT, RES = "std::option::Option", "std::result::Result"
+    leaf = {"parser::Parser::token", "parser::Parser::peek", "parser::Parser::eat_token", "parser::Parser::next_token",
+            "parser::Parser::parse_octothorpe", "parser::Parser::parse_identifier", "parser::parse_list",
+            "parser::parse_vector", "parser::string_literal", "parser::Parser::parse"}
+    inline = lambda a, b: b.crate == mac.name and b.file.endswith("parser.rs") and b.path not in leaf and b.kind != "closure"
+    n = 0
+    for v in sp["variants"]:
+        sval = Adt("proc_macro2::Spacing", v["idx"], [], v["name"])
+        for c in sorted(subs):
+            def hook(S, fn, bb, t, args, path, c=c, sval=sval):
+                p = t["callee"].get("path", "")
+                if p == "parser::Parser::peek":
+                    k = sum(1 for e in path.events if e[0] == "call" and "parser::Parser::eat_token" in e[1])
+                    if k == 0:
+                        return ("value", Adt(OPT, 1, [UNK]))
+                    return ("stop", "next-token")
+                if p == "proc_macro2::Punct::as_char":
+                    return ("value", c)
+                if p == "proc_macro2::Punct::spacing":
+                    return ("value", sval)
+                if p in leaf:
+                    return ("value", UNK)
+                return None
+
+            S = sim.Sim([mac], hooks={"call": hook}, inline=inline, max_paths=6000, max_depth=5, max_visits=3)
+            cont, ended = 0, 0
+            try:
+                for pth in S.run(pid):
+                    if not pth.calls("std::string::String::push"):
+                        continue
+                    if pth.end == "stop:next-token":
+                        cont += 1
+                    elif pth.end == "return":
+                        ended += 1
+            except sim.Limit:
+                r.violation(pid.path, "inexact", "path limit in parse_identifier")
+                continue
+            n += 1
+            if v["name"] == "Alone" and cont == 0 and ended > 0:
+                r.ok("inside a symbol, %r standing Alone ends it" % chr(c), pid)
+            elif v["name"] == "Joint" and cont > 0 and ended == 0:
+                r.ok("inside a symbol, %r Joint with its successor continues it" % chr(c), pid)
+            elif cont == 0 and ended == 0:
+                r.violation(pid.path, "inexact:%s:%s" % (v["name"], chr(c)), "no path appends %r" % chr(c), pid.loc())
+            else:
+                r.violation("lexpr_macros::" + pid.path, "spacing:%s:%s" % (v["name"], chr(c)),
+                            "after appending %r with Spacing::%s the macro %s: `(<= -1 x)` style input would be joined or "
+                            "split differently from the text parser" % (
+                                chr(c), v["name"], "goes on to the next token" if v["name"] == "Alone" else "stops"), pid.loc())
+        for c in sorted(init):
+            def hook0(S, fn, bb, t, args, path, c=c, sval=sval):
+                p = t["callee"].get("path", "")
+                if p == "parser::Parser::token":
+                    return ("value", Adt(RES, 0, [UNK]))
+                if p == "proc_macro2::Punct::as_char":
+                    return ("value", c)
+                if p == "proc_macro2::Punct::spacing":
+                    return ("value", sval)
+                if p in leaf:
+                    return ("value", UNK)
+                return None
+
+            S = sim.Sim([mac], hooks={"call": hook0}, inline=inline, max_paths=6000, max_depth=5)
+            joins, single = 0, 0
+            for pth in S.run(pf):
+                if not pth.calls("proc_macro2::Punct::as_char") or not pth.calls("proc_macro2::Punct::spacing"):
+                    continue
+                if pth.calls("parser::Parser::parse_identifier"):
+                    joins += 1
+                elif pth.end == "return":
+                    single += 1
+            n += 1
+            if (v["name"] == "Alone" and joins == 0 and single > 0) or (v["name"] == "Joint" and joins > 0 and single == 0):
+                r.ok("at the start, %r with Spacing::%s %s" % (chr(c), v["name"], "stands alone" if joins == 0 else "starts a joined symbol"), pf)
+            else:
+                r.violation("lexpr_macros::" + pf.path, "initial-spacing:%s:%s" % (v["name"], chr(c)),
+                            "at the start of a symbol %r with Spacing::%s leads to %d joining and %d single-character "
+                            "outcomes" % (chr(c), v["name"], joins, single), pf.loc())
+    r.floor("spacing-cases", n)
 
 
 def run(ctx):
@@ -109,6 +201,7 @@ def run(ctx):
     if not init or not subs:
         r.anchor_missing("punctuation accepted by lexpr_macros Parser::parse / parse_identifier (none found)")
         return
+    spacing(ctx, mac, pf, pid, init, subs)
     r.floor("initial-chars", len(init))
     r.floor("subsequent-chars", len(subs))
     # text parser: which first bytes can yield a symbol (default options; ':' with prefix keywords off)
